@@ -6,6 +6,7 @@ import GeonumModel.Lemmas.Shift
 import GeonumModel.Lemmas.Exact
 import GeonumModel.Lemmas.FloatTrig
 import GeonumModel.Lemmas.GeonumMag
+import GeonumModel.Lemmas.FloatMetric
 
 set_option linter.unusedSectionVars false
 set_option linter.unusedVariables false
@@ -150,6 +151,14 @@ theorem wedge_mag_float {a b : Geonum F} (ha : a.angle.Inv) (hb : b.angle.Inv) (
   have h53m2 : 2 * m / 2 ^ 53 = m * (2 / 2 ^ 53) := by ring
   rw [h53m2] at hP53; rw [h53m] at t2
   nlinarith [habs, t1, t2, t3, hP53, hm0, mul_le_mul_of_nonneg_left hnum hm0]
+
+/-- (S/B) **the angle of the wedge in rounded arithmetic**: its float total is `T a + T b + π_f/2`, plus a half turn exactly when the
+    computed sine tests negative, up to one snap and one rounding (the whole-blade additions are exact) — for every blade history -/
+theorem wedge_total_float {a b : Geonum F} (ha : a.angle.Inv) (hb : b.angle.Inv) :
+    ∃ δ : ℝ, |δ| < val (e10 : F) + 1 / 10 ^ 15 ∧
+      Angle.Tq (a.wedge b).angle = Angle.Tq a.angle + Angle.Tq b.angle + δ + val (qp : F)
+        + (if flt (FloatLike.sin (b.angle.sub a.angle).gradeAngle) (zero : F) then 2 * val (qp : F) else 0) :=
+  Geonum.wedge_total_float ha hb
 
 end B
 
